@@ -2,6 +2,7 @@ import J5V.Go.Hex
 import J5V.Schema.Wire
 import J5V.Schema.ReaderWire
 import J5V.Schema.PropSetModel
+import J5V.Schema.ReaderLinks
 /-!
 Line-protocol driver of the schema cluster (core only). One op per input line, one result per
 output line; see /verif/harness/PROTOCOL-schema.md.
@@ -74,7 +75,10 @@ def stepReflect (toks : List String) : String :=
         | .ok reg => "ok " ++ prShape reg
         | .err _ => "err"
         | .panic _ => "panic"
-      "set=" ++ setStr ++ " cache=[ " ++ " ".intercalate (cacheLoop ds [] ds.allMsgs) ++ " ]"
+      -- `linked ds`: the hypothesis of the C18 theorems, evaluated on every generated set (the
+      -- harness answers `linked=1` for every set protodesc links)
+      "linked=" ++ (if linked ds then "1" else "0") ++
+        " set=" ++ setStr ++ " cache=[ " ++ " ".intercalate (cacheLoop ds [] ds.allMsgs) ++ " ]"
 
 def step (line : String) : String :=
   match (line.trimAscii.toString.splitOn " ") with
